@@ -6,6 +6,7 @@ package main
 // `generated = modelled` obligations for them.
 
 import (
+	"strconv"
 	"bytes"
 	"fmt"
 	"go/ast"
@@ -75,6 +76,9 @@ func runAstx(repo, outDir string) error {
 	var methods []methodInfo
 	asyncSkels := map[string]string{}
 	var parseValCases []string
+	quoteTable := "None"
+	var typeConsts []string
+	var formatGuards []string
 	ifaceMethods := map[string][]string{} // interface -> "name:result"
 	var fileNames []string
 	for fn := range pkg.Files {
@@ -86,6 +90,9 @@ func runAstx(repo, outDir string) error {
 		for _, d := range f.Decls {
 			switch decl := d.(type) {
 			case *ast.GenDecl:
+				if decl.Tok == token.CONST {
+					typeConsts = append(typeConsts, typeConstTable(decl)...)
+				}
 				for _, sp := range decl.Specs {
 					ts, ok := sp.(*ast.TypeSpec)
 					if !ok {
@@ -109,11 +116,23 @@ func runAstx(repo, outDir string) error {
 				}
 			case *ast.FuncDecl:
 				if decl.Recv == nil {
+					if decl.Name.Name == "quote" {
+						quoteTable = quoteCases(fset, decl)
+					}
 					if decl.Name.Name == "parseVal" {
-						ast.Inspect(decl.Body, func(n ast.Node) bool {
-							ts, ok := n.(*ast.TypeSwitchStmt)
+						// the type switch, plus what happens when no case matches (a default clause, or the statement after the switch);
+						// the wording of the panic is not part of the contract
+						normalise := func(body string) string {
+							if strings.HasPrefix(body, "panic(") {
+								return "panic"
+							}
+							return body
+						}
+						hasDefault := false
+						for idx, st := range decl.Body.List {
+							ts, ok := st.(*ast.TypeSwitchStmt)
 							if !ok {
-								return true
+								continue
 							}
 							for _, c := range ts.Body.List {
 								cc := c.(*ast.CaseClause)
@@ -122,14 +141,17 @@ func runAstx(repo, outDir string) error {
 									body += exprString(fset, st)
 								}
 								if cc.List == nil {
-									parseValCases = append(parseValCases, "(B\"default\", B"+coqStr(body)+")")
+									hasDefault = true
+									parseValCases = append(parseValCases, "(B\"default\", B"+coqStr(normalise(body))+")")
 								}
 								for _, t := range cc.List {
-									parseValCases = append(parseValCases, "(B"+coqStr(exprString(fset, t))+", B"+coqStr(body)+")")
+									parseValCases = append(parseValCases, "(B"+coqStr(exprString(fset, t))+", B"+coqStr(normalise(body))+")")
 								}
 							}
-							return false
-						})
+							if !hasDefault && idx+1 < len(decl.Body.List) {
+								parseValCases = append(parseValCases, "(B\"default\", B"+coqStr(normalise(exprString(fset, decl.Body.List[idx+1])))+")")
+							}
+						}
 					}
 					continue
 				}
@@ -161,6 +183,9 @@ func runAstx(repo, outDir string) error {
 					ast.Inspect(decl.Body, walk)
 				}
 				methods = append(methods, mi)
+				if decl.Name.Name == "FormatString" && decl.Body != nil {
+					formatGuards = append(formatGuards, "(B"+coqStr(strings.TrimPrefix(recv, "*"))+", "+formatGuard(fset, decl)+")")
+				}
 				if decl.Name.Name == "ForEachAsync" || decl.Name.Name == "MapAsync" {
 					asyncSkels[strings.TrimPrefix(recv, "*")+"_"+decl.Name.Name] = asyncSkeleton(fset, decl)
 				}
@@ -223,14 +248,381 @@ func runAstx(repo, outDir string) error {
 	b.Reset()
 	b.WriteString("(* GENERATED by `harness astx` from /repo on every run. Do not edit. *)\nFrom Anytype Require Import Base.\n\n")
 	fmt.Fprintf(&b, "Definition gen_parseval_cases : list (bytes * bytes) := [\n  %s\n].\n", strings.Join(parseValCases, ";\n  "))
-	return os.WriteFile(filepath.Join(outDir, "GenParseVal.v"), []byte(b.String()), 0o644)
+	if err := os.WriteFile(filepath.Join(outDir, "GenParseVal.v"), []byte(b.String()), 0o644); err != nil {
+		return err
+	}
+	// (d) quote()'s escape table, the Type constants, the FormatString range guards
+	b.Reset()
+	b.WriteString("(* GENERATED by `harness astx` from /repo on every run. Do not edit. *)\nFrom Anytype Require Import Base SourceTables.\nLocal Open Scope Z_scope.\n\n")
+	fmt.Fprintf(&b, "Definition gen_quote_table : option (bytes * bytes * list qcase) := %s.\n\n", quoteTable)
+	fmt.Fprintf(&b, "Definition gen_type_consts : list (bytes * Z) := [\n  %s\n].\n\n", strings.Join(typeConsts, ";\n  "))
+	sort.Strings(formatGuards)
+	fmt.Fprintf(&b, "Definition gen_format_guards : list (bytes * guard) := [\n  %s\n].\n", strings.Join(formatGuards, ";\n  "))
+	return os.WriteFile(filepath.Join(outDir, "GenTables.v"), []byte(b.String()), 0o644)
 }
 
-// the ordered synchronisation-relevant statements of an async method and of its worker closure
+// the constants of type Type: an iota block (or explicit values)
+func typeConstTable(decl *ast.GenDecl) []string {
+	var out []string
+	isType := false
+	for i, sp := range decl.Specs {
+		vs, ok := sp.(*ast.ValueSpec)
+		if !ok {
+			continue
+		}
+		if vs.Type != nil {
+			id, ok := vs.Type.(*ast.Ident)
+			isType = ok && id.Name == "Type"
+		} else if len(vs.Values) > 0 {
+			isType = false
+		}
+		if !isType {
+			continue
+		}
+		for _, n := range vs.Names {
+			val := int64(i) // implicit repetition of iota
+			if len(vs.Values) == 1 {
+				switch v := vs.Values[0].(type) {
+				case *ast.Ident:
+					if v.Name != "iota" {
+						val = -1
+					}
+				case *ast.BasicLit:
+					if x, err := strconv.ParseInt(v.Value, 0, 64); err == nil {
+						val = x
+					} else {
+						val = -1
+					}
+				default:
+					val = -1
+				}
+			}
+			out = append(out, fmt.Sprintf("(B%s, %d)", coqStr(n.Name), val))
+		}
+	}
+	return out
+}
+
+func runeOfLit(e ast.Expr) (int64, bool) {
+	bl, ok := e.(*ast.BasicLit)
+	if !ok {
+		return 0, false
+	}
+	switch bl.Kind {
+	case token.CHAR:
+		s, err := strconv.Unquote(bl.Value)
+		if err != nil {
+			return 0, false
+		}
+		r := []rune(s)
+		if len(r) != 1 {
+			return 0, false
+		}
+		return int64(r[0]), true
+	case token.INT:
+		x, err := strconv.ParseInt(bl.Value, 0, 64)
+		return x, err == nil
+	}
+	return 0, false
+}
+
+func strOfLit(e ast.Expr) (string, bool) {
+	bl, ok := e.(*ast.BasicLit)
+	if !ok || bl.Kind != token.STRING {
+		return "", false
+	}
+	s, err := strconv.Unquote(bl.Value)
+	return s, err == nil
+}
+
+func coqByteList(s string) string {
+	items := make([]string, len(s))
+	for i := 0; i < len(s); i++ {
+		items[i] = fmt.Sprintf("x%02x", s[i])
+	}
+	return "[" + strings.Join(items, "; ") + "]"
+}
+
+// quote(): for _, char := range str { switch { case char == C: WriteString(lit) ... case char < 0x20: \u00 + two hex digits; default: WriteRune } }
+// rendered as a table; tolerant of a tagged switch, an if/else chain, several values per case and WriteByte/WriteString spellings.
+// Whatever is not recognised becomes QOther with the source text, which no table check accepts.
+func quoteCases(fset *token.FileSet, decl *ast.FuncDecl) string {
+	if decl.Body == nil {
+		return "None"
+	}
+	var rng *ast.RangeStmt
+	ast.Inspect(decl.Body, func(n ast.Node) bool {
+		if r, ok := n.(*ast.RangeStmt); ok && rng == nil {
+			rng = r
+			return false
+		}
+		return true
+	})
+	if rng == nil || rng.Value == nil {
+		return "None"
+	}
+	cv, ok := rng.Value.(*ast.Ident)
+	if !ok {
+		return "None"
+	}
+	hexConst := ""
+	ast.Inspect(decl.Body, func(n ast.Node) bool {
+		if vs, ok := n.(*ast.ValueSpec); ok && len(vs.Names) == 1 && len(vs.Values) == 1 {
+			if s, ok := strOfLit(vs.Values[0]); ok {
+				hexConst = vs.Names[0].Name + "=" + s
+			}
+		}
+		return true
+	})
+	isVar := func(e ast.Expr) bool { id, ok := e.(*ast.Ident); return ok && id.Name == cv.Name }
+	// the bytes a body writes: concatenation of literal writes, or the special forms
+	writes := func(body []ast.Stmt) string {
+		lit := ""
+		hexDigits := 0
+		rune_ := false
+		for _, st := range body {
+			es, ok := st.(*ast.ExprStmt)
+			if !ok {
+				return "QOther B" + coqStr(exprString(fset, st))
+			}
+			call, ok := es.X.(*ast.CallExpr)
+			if !ok || len(call.Args) != 1 {
+				return "QOther B" + coqStr(exprString(fset, st))
+			}
+			sel, ok := call.Fun.(*ast.SelectorExpr)
+			if !ok {
+				return "QOther B" + coqStr(exprString(fset, st))
+			}
+			arg := call.Args[0]
+			switch sel.Sel.Name {
+			case "WriteString":
+				s, ok := strOfLit(arg)
+				if !ok || hexDigits > 0 || rune_ {
+					return "QOther B" + coqStr(exprString(fset, st))
+				}
+				lit += s
+			case "WriteByte":
+				if c, ok := runeOfLit(arg); ok && c < 128 && hexDigits == 0 && !rune_ {
+					lit += string(rune(c))
+					continue
+				}
+				// hex[char>>4] then hex[char&0xf]
+				src := strings.ReplaceAll(exprString(fset, arg), " ", "")
+				hi := fmt.Sprintf("hex[%s>>4]", cv.Name)
+				lo1 := fmt.Sprintf("hex[%s&0xf]", cv.Name)
+				lo2 := fmt.Sprintf("hex[%s&15]", cv.Name)
+				lo3 := fmt.Sprintf("hex[%s&0xF]", cv.Name)
+				if hexConst == "hex=0123456789abcdef" && hexDigits == 0 && src == hi {
+					hexDigits = 1
+				} else if hexDigits == 1 && (src == lo1 || src == lo2 || src == lo3) {
+					hexDigits = 2
+				} else {
+					return "QOther B" + coqStr(exprString(fset, st))
+				}
+			case "WriteRune":
+				if !isVar(arg) || lit != "" || hexDigits > 0 {
+					return "QOther B" + coqStr(exprString(fset, st))
+				}
+				rune_ = true
+			default:
+				return "QOther B" + coqStr(exprString(fset, st))
+			}
+		}
+		switch {
+		case rune_:
+			return "WRune"
+		case hexDigits == 2:
+			return "WHex " + coqByteList(lit)
+		case hexDigits == 0:
+			return "WLit " + coqByteList(lit)
+		}
+		return "QOther B\"incomplete hex\""
+	}
+	var cases []string
+	emit := func(cond ast.Expr, tagged bool, body []ast.Stmt) {
+		w := writes(body)
+		if strings.HasPrefix(w, "QOther") {
+			cases = append(cases, w)
+			return
+		}
+		if cond == nil {
+			cases = append(cases, "QDefault ("+w+")")
+			return
+		}
+		if tagged {
+			if c, ok := runeOfLit(cond); ok {
+				cases = append(cases, fmt.Sprintf("QEq %d (%s)", c, w))
+				return
+			}
+		} else if be, ok := cond.(*ast.BinaryExpr); ok && isVar(be.X) {
+			if c, ok := runeOfLit(be.Y); ok {
+				switch be.Op {
+				case token.EQL:
+					cases = append(cases, fmt.Sprintf("QEq %d (%s)", c, w))
+					return
+				case token.LSS:
+					cases = append(cases, fmt.Sprintf("QLt %d (%s)", c, w))
+					return
+				case token.LEQ:
+					cases = append(cases, fmt.Sprintf("QLt %d (%s)", c+1, w))
+					return
+				}
+			}
+		}
+		cases = append(cases, "QOther B"+coqStr(exprString(fset, cond)))
+	}
+	if len(rng.Body.List) != 1 {
+		return "None"
+	}
+	switch st := rng.Body.List[0].(type) {
+	case *ast.SwitchStmt:
+		tagged := false
+		if st.Tag != nil {
+			if !isVar(st.Tag) {
+				return "None"
+			}
+			tagged = true
+		}
+		var def []ast.Stmt
+		hasDef := false
+		for _, c := range st.Body.List {
+			cc := c.(*ast.CaseClause)
+			if cc.List == nil {
+				def, hasDef = cc.Body, true
+				continue
+			}
+			for _, cond := range cc.List {
+				emit(cond, tagged, cc.Body)
+			}
+		}
+		if hasDef { // Go's default applies when no case matches, wherever it is written
+			emit(nil, tagged, def)
+		}
+	case *ast.IfStmt:
+		var cur ast.Stmt = st
+		for cur != nil {
+			switch x := cur.(type) {
+			case *ast.IfStmt:
+				if x.Init != nil {
+					return "None"
+				}
+				emit(x.Cond, false, x.Body.List)
+				cur = x.Else
+			case *ast.BlockStmt:
+				emit(nil, false, x.List)
+				cur = nil
+			default:
+				return "None"
+			}
+		}
+	default:
+		return "None"
+	}
+	// the frame: what is written before and after the loop
+	frame := func(stmts []ast.Stmt) string {
+		lit := ""
+		for _, st := range stmts {
+			es, ok := st.(*ast.ExprStmt)
+			if !ok {
+				continue
+			}
+			call, ok := es.X.(*ast.CallExpr)
+			if !ok || len(call.Args) != 1 {
+				continue
+			}
+			sel, ok := call.Fun.(*ast.SelectorExpr)
+			if !ok {
+				continue
+			}
+			if sel.Sel.Name == "WriteByte" {
+				if c, ok := runeOfLit(call.Args[0]); ok && c < 128 {
+					lit += string(rune(c))
+				}
+			} else if sel.Sel.Name == "WriteString" {
+				if s, ok := strOfLit(call.Args[0]); ok {
+					lit += s
+				}
+			}
+		}
+		return coqByteList(lit)
+	}
+	idx := -1
+	for i, st := range decl.Body.List {
+		if st == ast.Stmt(rng) {
+			idx = i
+		}
+	}
+	if idx < 0 {
+		return "None"
+	}
+	for _, c := range cases {
+		if strings.HasPrefix(c, "QOther") {
+			// part of the switch is written in a way this translator does not read: no table, the tie for quote() is then the
+			// correspondence check alone (a table is only emitted when EVERY case was understood)
+			return "None (* not recognised: " + strings.ReplaceAll(strings.ReplaceAll(c, "*)", "* )"), "\"", "'") + " *)"
+		}
+	}
+	return fmt.Sprintf("Some (%s, %s, [\n  %s])", frame(decl.Body.List[:idx]), frame(decl.Body.List[idx+1:]), strings.Join(cases, ";\n  "))
+}
+
+// FormatString's range guard: the first `if <cond> { panic(...) }` of the method, as a disjunction/conjunction of comparisons of
+// the parameter with integer literals
+func formatGuard(fset *token.FileSet, decl *ast.FuncDecl) string {
+	param := ""
+	if decl.Type.Params != nil && len(decl.Type.Params.List) == 1 && len(decl.Type.Params.List[0].Names) == 1 {
+		param = decl.Type.Params.List[0].Names[0].Name
+	}
+	var conv func(e ast.Expr) string
+	conv = func(e ast.Expr) string {
+		switch x := e.(type) {
+		case *ast.ParenExpr:
+			return conv(x.X)
+		case *ast.BinaryExpr:
+			switch x.Op {
+			case token.LOR:
+				return "(GOr " + conv(x.X) + " " + conv(x.Y) + ")"
+			case token.LAND:
+				return "(GAnd " + conv(x.X) + " " + conv(x.Y) + ")"
+			case token.LSS, token.GTR, token.LEQ, token.GEQ:
+				id, ok := x.X.(*ast.Ident)
+				c, ok2 := runeOfLit(x.Y)
+				if ok && ok2 && id.Name == param {
+					switch x.Op {
+					case token.LSS:
+						return fmt.Sprintf("(GLt %d)", c)
+					case token.LEQ:
+						return fmt.Sprintf("(GLt %d)", c+1)
+					case token.GTR:
+						return fmt.Sprintf("(GGt %d)", c)
+					case token.GEQ:
+						return fmt.Sprintf("(GGt %d)", c-1)
+					}
+				}
+			}
+		}
+		return "(GOther B" + coqStr(exprString(fset, e)) + ")"
+	}
+	for _, st := range decl.Body.List {
+		is, ok := st.(*ast.IfStmt)
+		if !ok || is.Init != nil || len(is.Body.List) == 0 {
+			continue
+		}
+		if es, ok := is.Body.List[0].(*ast.ExprStmt); ok {
+			if call, ok := es.X.(*ast.CallExpr); ok {
+				if id, ok := call.Fun.(*ast.Ident); ok && id.Name == "panic" {
+					return conv(is.Cond)
+				}
+			}
+		}
+	}
+	return "GNone"
+}
+
+// the ordered synchronisation-relevant statements of an async method and of its worker (a `step` closure started with
+// `go step(&wg, i, x)`, or a function literal started directly with `go func(i, x){...}(i, x)`)
 func asyncSkeleton(fset *token.FileSet, decl *ast.FuncDecl) string {
 	var mainI, workI []string
-	var stepLit *ast.FuncLit
-	stepParams := map[string]bool{}
+	var workerBody *ast.BlockStmt
 	// find `step := func(...) {...}`
 	ast.Inspect(decl.Body, func(n ast.Node) bool {
 		as, ok := n.(*ast.AssignStmt)
@@ -239,12 +631,7 @@ func asyncSkeleton(fset *token.FileSet, decl *ast.FuncDecl) string {
 		}
 		if id, ok := as.Lhs[0].(*ast.Ident); ok && id.Name == "step" {
 			if fl, ok := as.Rhs[0].(*ast.FuncLit); ok {
-				stepLit = fl
-				for _, p := range fl.Type.Params.List {
-					for _, nm := range p.Names {
-						stepParams[nm.Name] = true
-					}
-				}
+				workerBody = fl.Body
 			}
 		}
 		return true
@@ -255,6 +642,16 @@ func asyncSkeleton(fset *token.FileSet, decl *ast.FuncDecl) string {
 		}
 		return ""
 	}
+	usesIdent := func(n ast.Node, names map[string]bool) bool {
+		found := false
+		ast.Inspect(n, func(x ast.Node) bool {
+			if id, ok := x.(*ast.Ident); ok && names[id.Name] {
+				found = true
+			}
+			return true
+		})
+		return found
+	}
 	var walkMain func(stmts []ast.Stmt)
 	walkMain = func(stmts []ast.Stmt) {
 		for _, st := range stmts {
@@ -263,7 +660,7 @@ func asyncSkeleton(fset *token.FileSet, decl *ast.FuncDecl) string {
 				switch fn := callName(x.X); {
 				case strings.HasSuffix(fn, ".Add") && strings.HasPrefix(fn, "wg"):
 					arg := exprString(fset, x.X.(*ast.CallExpr).Args[0])
-					if strings.Contains(arg, "Count()") {
+					if strings.Contains(arg, "Count()") || strings.Contains(arg, "len(ego.val)") {
 						mainI = append(mainI, "MAdd")
 					} else {
 						mainI = append(mainI, "(MOther (B"+coqStr("wg.Add("+arg+")")+"))")
@@ -278,16 +675,36 @@ func asyncSkeleton(fset *token.FileSet, decl *ast.FuncDecl) string {
 					}
 				}
 			case *ast.RangeStmt:
-				// the spawn loop: `go step(&wg, i, item.getVal())`
+				loopVars := map[string]bool{}
+				for _, e := range []ast.Expr{x.Key, x.Value} {
+					if id, ok := e.(*ast.Ident); ok && id.Name != "_" {
+						loopVars[id.Name] = true
+					}
+				}
 				for _, bs := range x.Body.List {
 					switch g := bs.(type) {
 					case *ast.GoStmt:
-						byValue := true
-						if id, ok := g.Call.Fun.(*ast.Ident); !ok || id.Name != "step" {
-							byValue = false // a closure literal started directly: captures the loop variables
-						}
-						if len(g.Call.Args) != 3 {
-							byValue = false
+						byValue := false
+						switch fun := g.Call.Fun.(type) {
+						case *ast.Ident: // go step(&wg, i, item.getVal())
+							byValue = fun.Name == "step" && len(g.Call.Args) >= 2
+						case *ast.FuncLit: // go func(i, x) {...}(i, item.getVal())
+							workerBody = fun.Body
+							// by value iff the literal's body does not mention the loop variables (they only appear in the call's arguments),
+							// unless a parameter of the same name shadows them
+							shadow := map[string]bool{}
+							for _, p := range fun.Type.Params.List {
+								for _, nm := range p.Names {
+									shadow[nm.Name] = true
+								}
+							}
+							captured := map[string]bool{}
+							for v := range loopVars {
+								if !shadow[v] {
+									captured[v] = true
+								}
+							}
+							byValue = len(g.Call.Args) >= 2 && !usesIdent(fun.Body, captured)
 						}
 						if byValue {
 							mainI = append(mainI, "(MSpawn true)")
@@ -308,30 +725,68 @@ func asyncSkeleton(fset *token.FileSet, decl *ast.FuncDecl) string {
 		}
 	}
 	walkMain(decl.Body.List)
-	if stepLit != nil {
-		for _, st := range stepLit.Body.List {
-			es, ok := st.(*ast.ExprStmt)
-			if !ok {
-				workI = append(workI, "(WOther (B"+coqStr(exprString(fset, st))+"))")
-				continue
+	callsFunction := func(n ast.Node) bool {
+		found := false
+		ast.Inspect(n, func(x ast.Node) bool {
+			if c, ok := x.(*ast.CallExpr); ok {
+				if id, ok := c.Fun.(*ast.Ident); ok && id.Name == "function" {
+					found = true
+				}
 			}
-			fn := callName(es.X)
-			src := exprString(fset, es.X)
-			switch {
-			case fn == "mutex.Lock":
-				workI = append(workI, "WLock")
-			case fn == "mutex.Unlock":
-				workI = append(workI, "WUnlock")
-			case fn == "group.Done":
-				workI = append(workI, "WDone")
-			case fn == "function":
-				workI = append(workI, "WCall")
-			case (fn == "result.Replace" || fn == "result.Set") && strings.Contains(src, "function("):
-				workI = append(workI, "WCallStore")
+			return true
+		})
+		return found
+	}
+	if workerBody != nil {
+		for _, st := range workerBody.List {
+			switch x := st.(type) {
+			case *ast.ExprStmt:
+				fn := callName(x.X)
+				src := exprString(fset, x.X)
+				switch {
+				case strings.HasSuffix(fn, ".Lock"):
+					workI = append(workI, "WLock")
+				case strings.HasSuffix(fn, ".Unlock"):
+					workI = append(workI, "WUnlock")
+				case strings.HasSuffix(fn, ".Done"):
+					workI = append(workI, "WDone")
+				case fn == "function":
+					workI = append(workI, "WCall")
+				case fn == "result.Replace" || fn == "result.Set":
+					if callsFunction(x.X) {
+						workI = append(workI, "WCallStore")
+					} else {
+						workI = append(workI, "WStore")
+					}
+				default:
+					workI = append(workI, "(WOther (B"+coqStr(src)+"))")
+				}
+			case *ast.AssignStmt:
+				if callsFunction(x) {
+					workI = append(workI, "WCall")
+				} else {
+					workI = append(workI, "(WOther (B"+coqStr(exprString(fset, x))+"))")
+				}
+			case *ast.DeferStmt:
+				workI = append(workI, "(WOther (B"+coqStr("defer "+exprString(fset, x.Call))+"))")
 			default:
-				workI = append(workI, "(WOther (B"+coqStr(src)+"))")
+				workI = append(workI, "(WOther (B"+coqStr(exprString(fset, st))+"))")
 			}
 		}
 	}
-	return fmt.Sprintf("mkSkel [%s] [%s]", strings.Join(mainI, "; "), strings.Join(workI, "; "))
+	// `v := function(i, x); result.Replace(i, v)` is the same step as `result.Replace(i, function(i, x))`
+	var merged []string
+	for i := 0; i < len(workI); i++ {
+		if workI[i] == "WCall" && i+1 < len(workI) && workI[i+1] == "WStore" {
+			merged = append(merged, "WCallStore")
+			i++
+			continue
+		}
+		if workI[i] == "WStore" {
+			merged = append(merged, "(WOther (B"+coqStr("store without call")+"))")
+			continue
+		}
+		merged = append(merged, workI[i])
+	}
+	return fmt.Sprintf("mkSkel [%s] [%s]", strings.Join(mainI, "; "), strings.Join(merged, "; "))
 }
